@@ -427,6 +427,7 @@ def judgeFlows (flows : List FlowRow) : String :=
   match flows.find? (fun r => !flowOk r) with
   | some r =>
     if r.2.1 == "map" then s!"fail:aliased-map:{r.1} puts {r.2.2.2.2} (a map of its caller) into {r.2.2.1}:{r.2.2.2.1}: the requests built from one decoded ammo share a map that middlewares write"
+    else if r.2.2.1 == "return" then s!"fail:aliased-ref:{r.1} returns {r.2.2.2.2} (a {r.2.1} that belongs to its receiver / caller) as result {r.2.2.2.1}: every caller gets the same object"
     else s!"fail:aliased-ref:{r.1} stores {r.2.2.2.2} (a {r.2.1} of its caller) in {r.2.2.2.1}"
   | none => "ok"
 
